@@ -61,6 +61,7 @@ type group struct {
 	Pred    string `json:"pred"`
 	Allowed string `json:"allowed"`
 	Dev     string `json:"dev"`
+	Devat   string `json:"devat"`
 	Lay0    []int  `json:"lay0"`
 	LayMin  []int  `json:"layMin"`
 }
@@ -523,8 +524,8 @@ func TestAlias(t *testing.T) {
 					fail("c53-inplace-result-differs:"+a.name, "a documented arrangement gives a result different from the one with separate buffers", detail())
 				case !allowed && !got.panicked && !same:
 					sig := "c53-corrupt-no-panic:" + a.name
-					if pred == 'U' && g.Dev != "none" {
-						sig = "c53-" + g.Dev
+					if g.Dev != "none" && i < len(g.Devat) && g.Devat[i] == 'D' {
+						sig = "c53-" + g.Dev // the class's named deviation (open, or repaired and now regressed): the finding's own signature
 					}
 					fail(sig, "inexactly overlapping buffers: no panic and the result differs from the one with separate buffers", detail())
 					stats["forbidden_corrupt_without_panic"]++
